@@ -39,7 +39,7 @@ CONSTANTS NV,          \* maximum registry size
           Period,      \* EPOCHS_PER_SYNC_COMMITTEE_PERIOD
           AltairEpoch, \* epoch of the upgrade (may exceed MaxEpoch: never)
           KnownDeviations,
-          Flaw_StaleNext, Flaw_NoProposerReload, Flaw_NoStakeReload, Flaw_NoSyncRotate,
+          Flaw_StaleNext, Flaw_NoProposerReload, Flaw_NoStakeReload, Flaw_StakeReloadOnlyIfEffChanged, Flaw_NoSyncRotate,
           Flaw_NoPubkeyExtend, Flaw_NoSyncLoadOnUpgrade
 
 VARIABLES st, epc, nAtEpochStart
@@ -172,7 +172,9 @@ Rotate(c, pre, s) ==
         \* LoadProposers: computed from the CACHED current active indices and the state
         c2 == IF Flaw_NoProposerReload THEN c1 ELSE [c1 EXCEPT !.props = Props(s, c1.cur.active)]
         \* loadCurrentStake: from the state
-        c3 == IF Flaw_NoStakeReload THEN c2
+        \* (Flaw_StakeReloadOnlyIfEffChanged: reload skipped when no effective balance changed in this transition -
+        \*  the total active stake then misses activations / exits that take effect now)
+        c3 == IF Flaw_NoStakeReload \/ (Flaw_StakeReloadOnlyIfEffChanged /\ EffBalances(s.vals) = EffBalances(pre.vals)) THEN c2
               ELSE [c2 EXCEPT !.eff = EffBalances(s.vals),
                               !.total = TotalActive(s.vals, c2.cur.epoch, Inc),
                               !.sqrt = ISqrt(TotalActive(s.vals, c2.cur.epoch, Inc))]
